@@ -35,11 +35,18 @@ struct Knobs {
     static_reg: bool,
     method: &'static str,
     threads: u32,
+    /// (tol_gap_abs, tol_gap_rel, tol_feas); None = defaults
+    tols: Option<(f64, f64, f64)>,
 }
 impl Knobs {
-    fn default() -> Self { Knobs { presolve: true, equilibrate: true, static_reg: true, method: "qdldl", threads: 0 } }
+    fn default() -> Self { Knobs { presolve: true, equilibrate: true, static_reg: true, method: "qdldl", threads: 0, tols: None } }
     fn settings(&self) -> DefaultSettings<f64> {
+        let d = DefaultSettings::<f64>::default();
+        let (ga, gr, tf) = self.tols.unwrap_or((d.tol_gap_abs, d.tol_gap_rel, d.tol_feas));
         DefaultSettings {
+            tol_gap_abs: ga,
+            tol_gap_rel: gr,
+            tol_feas: tf,
             verbose: false,
             presolve_enable: self.presolve,
             equilibrate_enable: self.equilibrate,
@@ -50,7 +57,8 @@ impl Knobs {
         }
     }
     fn json(&self) -> Value {
-        json!({"presolve": self.presolve, "equilibrate": self.equilibrate, "static_reg": self.static_reg, "method": self.method, "threads": self.threads})
+        json!({"presolve": self.presolve, "equilibrate": self.equilibrate, "static_reg": self.static_reg, "method": self.method, "threads": self.threads,
+               "tols": self.tols.map(|t| vec![t.0, t.1, t.2])})
     }
 }
 
@@ -341,6 +349,52 @@ fn main() {
         }
     }
 
+    // ------------------------------------------------------------ non-default tolerances: the same problem under
+    // two configurations that share the tolerances (equilibration on / off, presolve off, other backend)
+    // must agree within THOSE tolerances.  Objectives are scaled up so that absolute and relative gap
+    // tolerances differ by orders of magnitude in effect.
+    if replay.is_none() {
+        let tolsets: [(f64, f64, f64); 3] = [(1e-3, 1e-10, 1e-8), (1e-10, 1e-4, 1e-8), (1e-6, 1e-6, 1e-6)];
+        let mut done = 0;
+        for p0 in bases.iter().filter(|p| p.intent == 0) {
+            if done >= (if thorough { 60 } else { 12 }) { break; }
+            done += 1;
+            let mut p = p0.clone();
+            let sc = [1e5, 1e3, 1e6][done % 3];
+            for v in p.q.iter_mut() { *v *= sc; }
+            for v in p.P.nzval.iter_mut() { *v *= sc; }
+            p.label = format!("{} objective x{}", p.label, sc);
+            for (ti, t) in tolsets.iter().enumerate() {
+                let ka = Knobs { tols: Some(*t), ..Knobs::default() };
+                let kb = match (done + ti) % 3 {
+                    0 => Knobs { tols: Some(*t), equilibrate: false, ..Knobs::default() },
+                    1 => Knobs { tols: Some(*t), presolve: false, static_reg: false, ..Knobs::default() },
+                    _ => Knobs { tols: Some(*t), method: "faer", ..Knobs::default() },
+                };
+                let (a, b) = match (solve(&p, &ka), solve(&p, &kb)) { (Some(a), Some(b)) => (a, b), _ => continue };
+                bump(&mut stats, "tolerance_pairs");
+                let input = json!({"label": p.label, "problem": p.to_json(), "variant": format!("tolerances {:?} vs same tolerances with {:?}", t, kb.json()), "knobs": kb.json(),
+                                   "status": [a.status, b.status], "obj": [a.obj, b.obj], "iterations": [a.iterations, b.iterations]});
+                let mut coq = format!("(c_class {} {})", cn(a.status as usize), cn(b.status as usize));
+                if a.status == 1 && b.status == 1 && finite(&a.x) && finite(&a.s) && finite(&a.z) && finite(&b.x) && finite(&b.s) && finite(&b.z) {
+                    let gt = |o: f64, od: f64| t.0.max(t.1 * 1f64.max(o.abs().min(od.abs())));
+                    let n2 = |v: &[f64]| v.iter().map(|x| x * x).sum::<f64>().sqrt();
+                    let ni = |v: &[f64]| v.iter().fold(0.0f64, |m, x| m.max(x.abs()));
+                    let up = 1.0 + 1e-9;
+                    let rp1 = t.2 * 1f64.max(ni(&p.b) + n2(&a.x) + n2(&a.s)) * up;
+                    let rd1 = t.2 * 1f64.max(ni(&p.q) + n2(&a.x) + n2(&a.z)) * up;
+                    let rp2 = t.2 * 1f64.max(ni(&p.b) + n2(&b.x) + n2(&b.s)) * up;
+                    let rd2 = t.2 * 1f64.max(ni(&p.q) + n2(&b.x) + n2(&b.z)) * up;
+                    coq = format!("(N.max {} (c_cross {} {} {} {} {} {} {} {} {} {} {} {} {} {} {} {} {} {} {} {}))", coq,
+                        cn(p.q.len()), cn(p.b.len()), trips(&p.P), trips(&p.A), cdylist(&p.q), cdylist(&p.b),
+                        cdy(gt(a.obj, a.obj_dual)), cdy(gt(b.obj, b.obj_dual)), cdy(rp1), cdy(rd1), cdy(rp2), cdy(rd2), cdy(a.obj), cdy(b.obj),
+                        cdylist(&a.x), cdylist(&a.s), cdylist(&a.z), cdylist(&b.x), cdylist(&b.s), cdylist(&b.z));
+                }
+                sink.case("variant", input, coq, &["C05"]);
+            }
+        }
+    }
+
     // ------------------------------------------------------------ concurrency: 8 threads x distinct problems
     if replay.is_none() {
         let probs: Vec<Prob> = bases.iter().take(if thorough { 64 } else { 16 }).cloned().collect();
@@ -372,14 +426,18 @@ fn main() {
                 let r = guarded(|| {
                     let mut st = Knobs::default().settings();
                     st.time_limit = lim;
+                    // solve_time is the sum of the solver's root timers: set-up (spent in the constructor)
+                    // + this solve + post-processing, so the constructor call is part of the bound
+                    let tn = std::time::Instant::now();
                     let mut solver = DefaultSolver::new(&p.P, &p.q, &p.A, &p.b, &p.cones, st);
+                    let tnew = tn.elapsed().as_secs_f64();
                     let mut outs = vec![];
                     for _ in 0..2 {
                         std::thread::sleep(std::time::Duration::from_secs_f64(lim * 1.25));
                         let t0 = std::time::Instant::now();
                         solver.solve();
                         let d = t0.elapsed().as_secs_f64();
-                        outs.push((solver.solution.status, solver.solution.solve_time, d));
+                        outs.push((solver.solution.status, solver.solution.solve_time, tnew + d));
                     }
                     outs
                 });
@@ -395,9 +453,9 @@ fn main() {
                     let time_ok = *reported <= *d + 1e-3;
                     let ok = !early_maxtime && (same || inconclusive) && time_ok;
                     sink.record(json!({"direct": {"prop": "C05", "ok": ok,
-                        "what": "a solver solved after idle time (and solved twice) under a finite time limit gives the base verdict: idle time and earlier solves do not count against the limit, reported solve_time <= duration of the call",
+                        "what": "a solver solved after idle time (and solved twice) under a finite time limit gives the base verdict: idle time and earlier solves do not count against the limit, reported solve_time <= duration of constructor + call",
                         "input": {"label": p.label, "problem": p.to_json(), "solve": k + 1, "status": *st as u32, "base_status": base.status,
-                                  "time_limit": lim, "reported_solve_time": reported, "measured_call_s": d}}}));
+                                  "time_limit": lim, "reported_solve_time": reported, "measured_constructor_plus_call_s": d}}}));
                 }
             }
         }
